@@ -13,6 +13,7 @@ TraceInit == /\ Init /\ tid \in 1..NTraces /\ l = 1
 Act(e) == CASE e.act = "Send" -> Send(e.k)
             [] e.act = "SendPair" -> SendPair(e.k)
             [] e.act = "Request" -> Request(e.k)
+            [] e.act = "RequestAbandoned" -> RequestAbandoned(e.k)
             [] e.act = "DropProxy" -> DropProxy(e.k)
             [] e.act = "PassBack" -> PassBack(e.k)
             [] e.act = "DeliverToHolder" -> DeliverToHolder
